@@ -73,45 +73,45 @@ Fixpoint string_contains_char (c : ascii) (s : string) : bool :=
 
 (* ------------------------------------------------------------------ min_interpolate_sign *)
 
-(* length of the maximal run of percent signs at the head of [s], and the rest *)
-Fixpoint percent_run (s : string) : nat * string :=
-  match s with
-  | String c s' => if Ascii.eqb c percent then let (n, r) := percent_run s' in (S n, r) else (0, s)
-  | EmptyString => (0, s)
+(* The regex of min_interpolate_sign in pretty.rs is  (%+\{)|(dquote %+)  and the function returns
+   the length of the longest match found by [Regex::find_iter] (leftmost-first, non-overlapping
+   scan), 1 if there is none.  The scan as an automaton over the characters: *)
+Inductive dstate :=
+| DStart                (* not inside a candidate *)
+| DQuote (k : nat)      (* a double quote followed by k percent signs *)
+| DPercent (k : nat).   (* k >= 1 percent signs, not preceded by a double quote *)
+
+(* close the candidate that is pending in state [st]: a quote followed by k >= 1 percent signs
+   is a match of length k + 1 *)
+Definition dflush (st : dstate) (best : nat) : nat :=
+  match st with
+  | DQuote (S k) => Nat.max (S (S k)) best
+  | _ => best
   end.
 
-(* Maximal length of a match of the regex of min_interpolate_sign in pretty.rs (one or more
-   percent signs followed by an opening brace, or a double quote followed by one or more percent
-   signs) in [s] (leftmost-first, non-overlapping
-   scan as [Regex::find_iter] does), 0 if there is none.  [fuel] bounds the scan ([length s]
-   suffices). *)
-Fixpoint max_delim_match (fuel : nat) (s : string) : nat :=
-  match fuel with
-  | O => 0
-  | S fuel' =>
-      match s with
-      | EmptyString => 0
-      | String c s' =>
-          if Ascii.eqb c percent then
-            let (n, r) := percent_run s' in       (* the run has n+1 percent signs *)
-            match r with
-            | String d r' =>
-                if Ascii.eqb d lbrace then Nat.max (n + 2) (max_delim_match fuel' r')
-                else max_delim_match fuel' r
-            | EmptyString => 0
-            end
-          else if Ascii.eqb c dquote then
-            let (n, r) := percent_run s' in
-            match n with
-            | O => max_delim_match fuel' s'
-            | S _ => Nat.max (n + 1) (max_delim_match fuel' r)
-            end
-          else max_delim_match fuel' s'
+Definition dstart (c : ascii) : dstate :=
+  if Ascii.eqb c percent then DPercent 1
+  else if Ascii.eqb c dquote then DQuote 0
+  else DStart.
+
+Fixpoint delim_scan (s : string) (st : dstate) (best : nat) : nat :=
+  match s with
+  | EmptyString => dflush st best
+  | String c s' =>
+      match st with
+      | DStart => delim_scan s' (dstart c) best
+      | DQuote k =>
+          if Ascii.eqb c percent then delim_scan s' (DQuote (S k)) best
+          else delim_scan s' (dstart c) (dflush st best)
+      | DPercent k =>
+          if Ascii.eqb c percent then delim_scan s' (DPercent (S k)) best
+          else if Ascii.eqb c lbrace then delim_scan s' DStart (Nat.max (S k) best)
+          else delim_scan s' (dstart c) best
       end
   end.
 
 Definition min_interpolate_sign (s : string) : nat :=
-  match max_delim_match (String.length s) s with
+  match delim_scan s DStart 0 with
   | O => 1
   | n => n
   end.
